@@ -1020,10 +1020,13 @@ class World(object):
         # the store that builds the result is a write of -v / +v / |v| into the operand's format
         av = self.exact_of_slot(a) if (self.template is None and self.cfg_template is None
                                        and not self.obj(a).scaled) else None
+        vals = None
         if av is not None:
             vals = (av[0], [(-v if f == 'neg' else abs(v) if f == 'abs' else v) for v in av[1]])
-            st.store = Store('new', vals=vals, route='arith', judge_cb=False, arith=f)
-            st.extra['arith_route'] = 'unary'
+        # -x, +x and abs(x) are arithmetic (Python's "unary arithmetic operations"): like every other
+        # arithmetic result they carry the inaccuracy flag of their operand (C04, last clause)
+        st.store = Store('new', vals=vals, route='arith', judge_cb=False, arith=f, prop=[a])
+        st.extra['arith_route'] = 'unary'
         yield
         o = self.obj(a)
         x = -o if f == 'neg' else +o if f == 'pos' else abs(o)
